@@ -65,6 +65,8 @@ public:
             COCLS_VERIF_POINT("p_lock");
             lk.lock();
         }
+        //the thread is not a worker of this pool any more (worker() can be called by any thread)
+        _current = nullptr;
     }
 
     ///Stops all threads
@@ -74,13 +76,19 @@ public:
     void stop() {
         decltype(_threads) tmp;
         decltype(_queue) q;
+        bool first;
         {
             COCLS_VERIF_POINT("p_lock");
             std::unique_lock lk(_mx);
+            first = !_exit;
             _exit = true;
             _cond.notify_all();
             std::swap(tmp, _threads);
             std::swap(q, _queue);
+            //somebody else is already stopping the pool: don't return (and let the caller
+            //destroy the pool) until he has joined the workers. A thread of the pool
+            //can't wait, it is just being joined
+            if (!first && _current != this) _cond.wait(lk, [&]{return _stopped;});
         }
         auto me = std::this_thread::get_id();
         for (std::thread &t: tmp) {
@@ -92,6 +100,13 @@ public:
             else {
                 t.join();
             }
+        }
+        if (first) {
+            //cancel the unfinished tasks now, the pool can be destroyed once _stopped is set
+            while (!q.empty()) q.pop();
+            std::lock_guard _(_mx);
+            _stopped = true;
+            _cond.notify_all();
         }
     }
 
@@ -381,6 +396,7 @@ protected:
     std::queue<q_item> _queue;
     std::vector<std::thread> _threads;
     bool _exit = false;
+    bool _stopped = false;
     static thread_local thread_pool *_current;
 
 
